@@ -22,6 +22,11 @@ RULE = (
     "ascending for one root, request budget 4*(instances+roots)+8. A case is "
     "non-trivial when >=1 instance lies below a root and >=2 requests were sent; "
     "distinct by (subtree sizes, ordered roots, level, api)."
+    " Deterministic boundary walks run first: the zero-length root (whole MIB view), 256/257/"
+    "300 roots (quick: 257), instance OIDs of 126/127/128 sub-identifiers, sub-identifier val"
+    "ues at the BER and 32-bit boundaries, decimal-prefix sibling roots. Walks of one client "
+    "pass the SAME root list object every time; a list that differs after a walk is a violati"
+    "on."
 )
 ASSUMPTIONS = [
     "reference agent vf/agent.py is RFC 3416 conformant (self-checked codec, every witness carries the wire log)",
